@@ -16,7 +16,7 @@ Definition rename_line (n : N) (l : line) : line :=
   | Lbl s => Lbl (s ++ inline_suffix n)%string
   | Ins i =>
       if renames_operand (i_mn i)
-      then Ins (mkI (i_mn i) (i_op i ++ inline_suffix n)%string (i_cycles i) (i_alt i) (i_bytes i) false)
+      then Ins (mkI (i_mn i) (i_op i ++ inline_suffix n)%string (i_cycles i) (i_alt i) (i_bytes i) (i_prot i))
       else l
   | _ => l
   end.
